@@ -364,3 +364,33 @@ def selfcons_phase(ck, lr, fcases, fout, OBS, rng, limit, tag="selfcons"):
                     c["failAt"], c["ops"][kf_]["op"], canon(x)[:100], a[1][:220], b[1][:220], c["state"]),
                     {"case": {kk: (v if kk != "ops" else v[: kf_ + 2] + [x]) for kk, v in c.items()}, "live": outs[kf_ + 2 + j], "rebuilt": mo[nd + j], "documents": outs[kf_ + 1]["ok"].get("facts")}, tag=tag)
                 break
+
+
+def remrule_fault_phase(ck, lr):
+    """A removal that fails half way and says so: a rule that is still there afterwards is still disabled."""
+    # ---- B4: a removal that fails half way and says so: a rule that is still there afterwards is still disabled (the `disabled` flag
+    # does not go before its rule)
+    b4 = []
+    for st in ("indexed", "linear"):
+        for nth in (1, 2, 3):
+            b4.append({"kind": "loc", "state": st, "storage": "mem", "locs": ["a"], "failRel": nth, "ops": [
+                {"op": "addRule", "loc": "a", "id": "r1", "rule": {"when": {"pattern": {"go": "?x"}}, "action": {"code": "(1)", "verif_tmpl": {"t": "lit", "v": 1}}}},
+                {"op": "enableRule", "loc": "a", "id": "r1", "enable": False}, {"op": "ruleEnabled", "loc": "a", "id": "r1"},
+                {"op": "remRule", "loc": "a", "id": "r1"}, {"op": "getRule", "loc": "a", "id": "r1"}, {"op": "ruleEnabled", "loc": "a", "id": "r1"},
+                {"op": "event", "loc": "a", "event": {"go": 1}}]})
+    # failRel counts from the first write of the LAST mutating op: measure the writes before remRule on a fault-free run
+    clean = run_cases(lr.drv, [dict(c, failRel=0) for c in b4])
+    for c, o0 in zip(b4, clean):
+        w_before = ((o0.get("outs") or [{}] * 3)[2]).get("writes", 0)
+        cc = dict(c); nth = cc.pop("failRel"); cc["failAt"] = w_before + nth
+        o = run_cases(lr.drv, [cc])[0]
+        outs = o.get("outs") or []
+        ck.count({"b4": nth, "s": c["state"]})
+        if len(outs) != len(c["ops"]):
+            continue
+        rem, got, en, ev = outs[3], outs[4], outs[5], outs[6]
+        lr.stats["remrule_fault_cases"] += 1
+        if rem.get("err") is not None and "ok" in got and (en.get("ok") is True or (ev.get("rules") or [])):
+            ck.violation("RemRule of a disabled rule failed (storage write %d of it refused) and reported it; the rule is still there and is now ENABLED (ruleEnabled=%s, an event dispatched %d rule(s)) (%s state)" % (
+                nth, en.get("ok"), len(ev.get("rules") or []), c["state"]), {"case": cc, "impl": outs}, tag="remrule-fault")
+
